@@ -76,6 +76,28 @@ func genStream(rng *rand.Rand, tier string, emit func(string)) {
 		if (tier != "thorough" && rng.Intn(10) == 0) || (tier == "thorough" && rng.Intn(50) == 0) {
 			bigLeft = 1 + rng.Intn(2)
 		}
+		// one session per quick run (a few per thorough run): an entry ABOVE the 1 MiB decode buffer inside a compact
+		// (continuation) message, with further continuations behind it — the decoder's index bookkeeping across its
+		// one-off large buffer
+		if (tier != "thorough" && s == 2) || (tier == "thorough" && s%300 == 2) {
+			g := gs[0]
+			for k, sizes := range [][]int{{3}, {7, 1024*1024 + 1 + rng.Intn(40)}, {5}, {1024*1024 + 1 + rng.Intn(40), 2}, {4, 4}, {}} {
+				m := raftpb.Message{Type: raftpb.MsgApp, From: g.from.r, To: g.to.r, FromGroup: g.from.pb(), ToGroup: g.to.pb(),
+					Term: g.term, LogTerm: g.term, Index: g.next - 1}
+				for _, sz := range sizes {
+					data := make([]byte, sz)
+					rng.Read(data)
+					m.Entries = append(m.Entries, raftpb.Entry{Term: g.term, Index: g.next, Data: data, ID: rng.Uint64(), Timestamp: rng.Int63()})
+					g.next++
+				}
+				if k > 0 {
+					g.commit = m.Index
+				}
+				m.Commit = g.commit
+				emit(v2line(&m, 1, g.from, g.to))
+				total++
+			}
+		}
 		for i := 0; i < nmsg; i++ {
 			if rng.Intn(8) == 0 {
 				emit("v2 hb")
